@@ -98,7 +98,7 @@ func (fr *Frame) stepReplayValues(li *loopInfo, e *State) ([]namedTerm, *ReplayP
 		case IfaceV:
 			if isNDIface(p.Type()) {
 				v.Typ = p.Type()
-				vals = append(vals, namedTerm{"at/" + p.Name(), sel(c.ndCells(hs, v), idx)})
+				vals = append(vals, namedTerm{"at/" + p.Name(), c.sel(c.ndCells(hs, v), idx)})
 			}
 		case SliceV:
 			if v.Elem == "" {
@@ -107,7 +107,7 @@ func (fr *Frame) stepReplayValues(li *loopInfo, e *State) ([]namedTerm, *ReplayP
 			vals = append(vals, namedTerm{"sl/" + p.Name() + "/len", v.Len})
 			h := c.heap(hs, "H."+string(v.Elem), heapSort(v.Elem))
 			for k := 0; k < maxElems; k++ {
-				vals = append(vals, namedTerm{fmt.Sprintf("sl/%s/%d", p.Name(), k), sel(sel(h, v.ID), app(SInt, "+", v.Off, intLit(int64(k))))})
+				vals = append(vals, namedTerm{fmt.Sprintf("sl/%s/%d", p.Name(), k), c.sel(c.sel(h, v.ID), app(SInt, "+", v.Off, intLit(int64(k))))})
 			}
 		}
 	}
@@ -130,7 +130,7 @@ func (c *Ctx) postReplayValues(fr *Frame, st0 *State, kind string) ([]namedTerm,
 				vals = append(vals, namedTerm{"nd/" + p.Name() + "/len", c.ndLen(v)})
 				cells := c.ndCells(st0, v)
 				for k := 0; k < maxElems; k++ {
-					vals = append(vals, namedTerm{fmt.Sprintf("nd/%s/%d", p.Name(), k), sel(cells, intLit(int64(k)))})
+					vals = append(vals, namedTerm{fmt.Sprintf("nd/%s/%d", p.Name(), k), c.sel(cells, intLit(int64(k)))})
 				}
 			}
 		case SliceV:
@@ -140,7 +140,7 @@ func (c *Ctx) postReplayValues(fr *Frame, st0 *State, kind string) ([]namedTerm,
 			vals = append(vals, namedTerm{"sl/" + p.Name() + "/len", v.Len})
 			h := c.heap(st0, "H."+string(v.Elem), heapSort(v.Elem))
 			for k := 0; k < maxElems; k++ {
-				vals = append(vals, namedTerm{fmt.Sprintf("sl/%s/%d", p.Name(), k), sel(sel(h, v.ID), app(SInt, "+", v.Off, intLit(int64(k))))})
+				vals = append(vals, namedTerm{fmt.Sprintf("sl/%s/%d", p.Name(), k), c.sel(c.sel(h, v.ID), app(SInt, "+", v.Off, intLit(int64(k))))})
 			}
 		}
 	}
